@@ -129,9 +129,34 @@ def build(c, syntax):
         lg = mk_dict(c['log_gi'])
         f = models.logmev if kind == 'logmev' else models.mev
         return {'tree': expr_to_json(f(util, lg, av, choice))}
+    prior = c.get('prior')
+    real_util = util
+    if prior and util:
+        # a HISTORY: the same nests object (and, for 'inplace', the same utility dict) was already used for another
+        # model; the tree of the present call must not depend on it
+        util = {k: v + 7 for k, v in real_util.items()}
+
+    def settle():
+        nonlocal util
+        if prior == 'inplace':
+            for k in list(util):
+                util[k] = real_util[k]
+        elif prior:
+            util = real_util
+
     if kind in ('lognested', 'nested', 'lognested_mev_mu', 'nested_mev_mu', 'gen_nested', 'mev_nested',
                 'mev_nested_mu'):
         nests = nested_args(c, syntax)
+        if prior:
+            for f in ((lambda: models.nested(util, av, nests, list(util)[0])),
+                      (lambda: models.lognested(util, av, nests, list(util)[0])),
+                      (lambda: models.get_mev_for_nested(util, av, nests)),
+                      (lambda: models.get_mev_generating_for_nested(util, av, nests))):
+                try:
+                    f()
+                except Exception:  # noqa
+                    pass
+            settle()
         if kind == 'lognested':
             return {'tree': expr_to_json(models.lognested(util, av, nests, choice))}
         if kind == 'nested':
@@ -155,6 +180,15 @@ def build(c, syntax):
                     'alone_order': order}
     if kind in ('logcnl', 'cnl', 'logcnlmu', 'cnlmu', 'mev_cnl', 'mev_cnl_mu'):
         nests = cnl_args(c, syntax)
+        if prior:
+            for f in ((lambda: models.cnl(util, av, nests, list(util)[0])),
+                      (lambda: models.logcnl(util, av, nests, list(util)[0])),
+                      (lambda: models.get_mev_for_cross_nested(util, av, nests))):
+                try:
+                    f()
+                except Exception:  # noqa
+                    pass
+            settle()
         if kind == 'logcnl':
             return {'tree': expr_to_json(models.logcnl(util, av, nests, choice))}
         if kind == 'cnl':
